@@ -1,7 +1,7 @@
 (* C04 — No signing or verification under an algorithm other than the protected alg.
    Statements only (copied from coq/theories by bin/mkprops); each proof is `exact <lemma>`. *)
 From Coq Require Import Ascii String ZArith List Bool Permutation.
-From GoCose Require Import Bytes Cbor CborProofs Res GoVal Obs Ecdsa Fx Headers Enc Dec Msg HashEnv Key SigVer Run TbsProofs FlowProofs DecProofs HdrProofs.
+From GoCose Require Import Bytes Cbor CborProofs Res GoVal Obs Ecdsa Fx Headers Enc Dec Msg HashEnv Key SigVer Run TbsProofs FlowProofs AskedOnce DecProofs HdrProofs.
 From GoCose.Gen Require Import Generated.
 Import ListNotations.
 Open Scope Z_scope.
@@ -89,3 +89,19 @@ Theorem C04_decoded_alg_is_wire_alg :
                           alg_of (Some pm) = alg_of (Some (zip_flat ks vs))).
 Proof. exact decoded_alg_is_wire_alg. Qed.
 Print Assumptions C04_decoded_alg_is_wire_alg.
+
+(* no algorithm in the protected bucket and no external data: the verifier is not consulted, the message does not verify *)
+Theorem C04_sign1_verify_without_alg :
+  forall m vf,
+  alg_of (hP (s1_h m)) = Rej EAlgNotFound ->
+  snd (sign1_verify m None vf) = [] /\ fst (sign1_verify m None vf) <> Acc tt.
+Proof. exact sign1_verify_without_alg. Qed.
+Print Assumptions C04_sign1_verify_without_alg.
+
+(* VerifyHashEnvelope offers no external data: an envelope without alg is never returned, its verifier never asked, whatever algorithm the verifier is for *)
+Theorem C04_verify_he_without_alg :
+  forall vf env m0,
+  unmarshal_sign1 env = Acc m0 -> alg_of (hP (s1_h m0)) = Rej EAlgNotFound ->
+  snd (verify_he vf env) = [] /\ forall m, fst (verify_he vf env) <> Acc m.
+Proof. exact verify_he_without_alg. Qed.
+Print Assumptions C04_verify_he_without_alg.
